@@ -6,7 +6,13 @@ from typing import Dict, List, NamedTuple, Optional, Set, Tuple
 SEP = '@'
 TWO = 'ab'
 LIMIT = 3
-SMALL_INTS = {'s_repeat', 's_ranges', 's_while', 's_recursion', 's_collatz', 's_fuel_call', 's_rec_out'}
+SMALL_INTS = {'s_repeat', 's_ranges', 's_while', 's_recursion', 's_collatz', 's_fuel_call', 's_rec_out', 's_nested_add',
+              's_ord_reach', 's_ord_call'}
+# selftest: Spec options of samples — opaque callees (passed the translated helper itself), call-shape assumptions,
+# parameters only read in an unevaluated message; samples named s_ord_* take the unknown set order `ord`
+OPAQUE = {'s_opq_use': ['s_opq_helper']}
+ASSUME = {'s_opq_use': {'names': True}}
+UNUSED = {'s_opq_fail': ['cols', 'names']}
 FUEL = 400           # selftest: the fuel handed to functions translated with explicit fuel
 
 
@@ -449,6 +455,64 @@ def s_struct(a: SPair, b: SCount) -> SPair:
     return c.add(SPair(SCount(c.left.test, 1), a.name))
 
 
+# ---- round 3: opaque callees, unused parameters, call-shape assumptions, unknown set order, d[k].add
+def s_opq_helper(k: str, v: Optional[int]) -> int:
+    if v is None:
+        raise KeyError(k)
+    return v + len(k)
+
+
+def s_opq_fail(cols: List[int], names: List[str]) -> None:
+    raise SampleError('{} != {}'.format(len(cols), len(names)))
+
+
+def s_opq_use(names: List[str], vals: List[Optional[int]]) -> List[int]:
+    if names:
+        if len(names) != len(vals):
+            s_opq_fail(vals, names)
+        out = [s_opq_helper(n, v) for n, v in zip(names, vals)]
+    else:
+        out = [0]
+    s_opq_helper('x', 1)
+    return out
+
+
+def s_ord_reach(adj: Dict[int, Set[int]], start: int) -> Set[int]:
+    seen = set()
+    agenda = [start]
+    while agenda:
+        x = agenda.pop()
+        if x not in seen:
+            seen.add(x)
+            agenda.extend(y for y in adj.get(x, []) if y not in seen)
+    return seen
+
+
+def s_ord_pairs(xs: Set[int], ys: Set[int]) -> Set[Tuple[int, int]]:
+    out: List[Tuple[int, int]] = []
+    for x in xs:
+        for y in ys:
+            if x < y:
+                out.append((x, y))
+    return set(out)
+
+
+def s_ord_call(adj: Dict[int, Set[int]], starts: List[int]) -> List[Set[int]]:
+    comps = []
+    for s in starts:
+        c = s_ord_reach(adj, s)
+        comps.append(c)
+    return comps
+
+
+def s_nested_add(nodes: List[int], edges: List[Tuple[int, int]]) -> Dict[int, Set[int]]:
+    g = {n: set() for n in nodes}
+    for a, b in edges:
+        g[a].add(b)
+        g[b].add(a)
+    return g
+
+
 def s_identity(xs: List[int]) -> List[int]:
     return xs
 
@@ -659,3 +723,17 @@ def u_pop_index(xs: List[int], i: int) -> int:
     ys = list(xs)
     y = ys.pop(i)
     return y
+
+
+def u_ord_missing(adj: Dict[int, Set[int]], start: int) -> Set[int]:
+    return s_ord_reach(adj, start)
+
+
+def u_nested_shared(nodes: List[int], xs: Set[int]) -> Dict[int, Set[int]]:
+    g = {n: xs for n in nodes}
+    g[0].add(1)
+    return g
+
+
+def u_nested_param(g: Dict[int, Set[int]]) -> None:
+    g[0].add(1)
